@@ -5,7 +5,6 @@
    document. *)
 From V.model Require Import Base Deb822Lex Deb822Parse Deb822Edit Deb822Wrap WrapSpec.
 From V.proofs Require Import BaseP Deb822LexP Deb822ParseP Deb822WrapP WrapTokP.
-Set Default Timeout 60.
 
 Definition ne_toks (ts : list token) : Prop := Forall (fun t => snd t <> []) ts.
 (* a non-empty token whose kind satisfies p *)
